@@ -269,6 +269,13 @@ func vfC35Run(v *vfT, c vfC35Case) {
 			v.Label("units-before-keyframe")
 		}
 		v.Label(fmt.Sprintf("first-key:t%d", vfC35Type(k, carried[first])))
+		hdrLen := map[string]int{"h264": 1, "h265": 2}[k]
+		for _, u := range strict[1:] {
+			if len(u) == hdrLen {
+				v.Label("header-only-unit-after-keyframe")
+				break
+			}
+		}
 		if len(strict) >= 2 {
 			v.NonTrivial()
 		}
@@ -387,9 +394,18 @@ func vfC35GenNal(t *rapid.T, codec string, typ int, small bool) vfC35Nal {
 	case small:
 		n.Body = rapid.SliceOfN(bb, 3, 24).Draw(t, "body") // a real parameter set has at least profile/level bytes
 	default:
-		n.Body = rapid.SliceOfN(bb, 1, 12).Draw(t, "body") // header-only units are not depacketizable by the dependency (H.265)
-		n.Fill = rapid.OneOf(rapid.IntRange(0, 60), rapid.IntRange(0, 400), rapid.IntRange(0, 4000)).Draw(t, "fill")
-		n.FSeed = rapid.Uint32().Draw(t, "fseed")
+		// size class: header-only unit (H.264 1 byte: 1/4; H.265 2 bytes: 1/100, pion/rtp's H.265 depacketizer
+		// refuses those so the case is only counted), header + 1 byte (1/5), otherwise free
+		sc := rapid.IntRange(0, 19).Draw(t, "sizeclass")
+		switch {
+		case (codec == "h264" && sc < 5) || (codec == "h265" && sc == 0 && rapid.IntRange(0, 4).Draw(t, "hdronly265") == 0):
+		case sc < 9:
+			n.Body = rapid.SliceOfN(bb, 1, 1).Draw(t, "body1")
+		default:
+			n.Body = rapid.SliceOfN(bb, 1, 12).Draw(t, "body")
+			n.Fill = rapid.OneOf(rapid.IntRange(0, 60), rapid.IntRange(0, 400), rapid.IntRange(0, 4000)).Draw(t, "fill")
+			n.FSeed = rapid.Uint32().Draw(t, "fseed")
+		}
 	}
 	return n
 }
@@ -476,10 +492,10 @@ func vfC35Gen(codec string) func(v *vfT) vfC35Case {
 }
 
 var vfC35Opts = vfOpts{
-	Rule: "0..3 access units of non-keyframe units, then one of {nothing, an IDR-led access unit without parameter sets, parameter sets + slice, a lone parameter set, parameter sets (+SEI) + IDR}, then 0..4 access units of arbitrary unit types (H.264 1..23, H.265 0..40); parameter sets 4..26 bytes, other units 2 bytes..4 KiB; MTU 60..1400; aggregation on (3/4) or off; access units handed to the payloader whole or one unit per call; non-trivial = at least two units from the first keyframe on",
+	Rule: "0..3 access units of non-keyframe units, then one of {nothing, an IDR-led access unit without parameter sets, parameter sets + slice, a lone parameter set, parameter sets (+SEI) + IDR}, then 0..4 access units of arbitrary unit types (H.264 1..23, H.265 0..40); parameter sets 4..26 bytes, other units from header-only (H.264: 1 byte, 1/4 of the units; H.265: 2 bytes, 1/100) and header + 1 byte up to 4 KiB; MTU 60..1400; aggregation on (3/4) or off; access units handed to the payloader whole or one unit per call; non-trivial = at least two units from the first keyframe on",
 	Assumptions: []string{
 		"pion/rtp's depacketizers (a separate instance, fed every packet) define which units the payloader carried and in which order; units the payloader drops, holds back or de-duplicates are outside the property",
-		"units consisting of a header only are not generated (pion/rtp's H.265 depacketizer rejects them) and parameter sets carry at least 3 payload bytes (a real SPS cannot be shorter; H264Writer needs 4 payload bytes to classify a packet)",
+		"header-only H.265 units are rare because pion/rtp's H.265 depacketizer rejects them (such cases are counted under payloader-output-not-depacketizable, nothing is asserted); parameter sets carry at least 3 payload bytes (a real SPS cannot be shorter; H264Writer needs 4 payload bytes to classify a packet)",
 		"parameter sets are small enough to fit one packet at every generated MTU (fragmented parameter sets are not generated); the forbidden_zero_bit is 0",
 		"when the first keyframe unit sits behind other units inside one aggregation packet, output starting at that packet's first unit is accepted as well",
 	},
